@@ -3,7 +3,7 @@
    no Extract Constant of ours; N / positive / byte / string stay Coq inductives. *)
 Require Extraction.
 Require Import ExtrOcamlBasic.
-From Jamm Require Import Bytes Fnv Consts CLayout Meta Spec Codec Tree Cursor PL Freelist Conc ApiSig ApiFlow.
+From Jamm Require Import Bytes Fnv Consts CLayout Meta Spec Codec Tree Cursor PL Freelist Conc ApiSig ApiFlow Engine.
 Extraction Language OCaml.
 Set Extraction KeepSingleton.
 Separate Extraction
@@ -18,4 +18,5 @@ Separate Extraction
   PL.accept PL.init_pl PL.writer_view PL.commit_ok
   Freelist.begin_writer Freelist.tx_allocate Freelist.tx_free Freelist.fl_init Freelist.fl_pages Freelist.fl_size
   Conc.step Conc.init Conc.reader0 Conc.writer0 Conc.snapshots_okb Conc.finished
-  ApiSig.api ApiFlow.anchoredb ApiFlow.sens_in ApiFlow.is_anchor_ty ApiFlow.none_send ApiFlow.db_shareable.
+  ApiSig.api ApiFlow.anchoredb ApiFlow.sens_in ApiFlow.is_anchor_ty ApiFlow.none_send ApiFlow.db_shareable
+  Engine.run_tx Engine.init_db Engine.reopen_db Engine.dget.
